@@ -211,6 +211,15 @@ def fields_rule(ctx):
         guards = [norm(n.test) for n in walk_local(td) if isinstance(n, ast.If)]
         odd = [g for g in guards if not (g.startswith('self.') and g.endswith(' is not None'))]
         R.check(not odd and bool(guards), rule, f'{q} | optional fields', f'{len(guards)} optional fields written iff `is not None`', f'optional field guard(s) {odd} drop legitimate values such as 0 or an empty byte string', p.loc(td))
+        # ... each on its own: an `elif` / `else` chain writes one optional field only when an earlier one is absent
+        ifs = [n for n in walk_local(td) if isinstance(n, ast.If)]
+        chained = [norm(n.test) for n in ifs if n.orelse or any(n in getattr(o, 'orelse', []) for o in ifs)]
+        R.check(not chained, rule, f'{q} | optional fields independent', 'each optional field has its own `if` (no elif / else chain)', f'the guards {chained} are chained with elif / else: a field is written only when the field tested before it is absent, so a record holding both loses one on the way to the file', p.loc(td))
+        # an optional field that is absent from the file reads back as None (no other default)
+        optional = {s_.target.id for s_ in ci.node.body if isinstance(s_, ast.AnnAssign) and isinstance(s_.target, ast.Name) and ' | None' in text(s_.annotation)}
+        defaults = [(const(n.args[0]), norm(n.args[1]) if len(n.args) > 1 else norm(kwarg(n, 'default'))) for n in ast.walk(fd) if isinstance(n, ast.Call) and call_attr(n) == 'get' and n.args and is_const(n.args[0]) and (len(n.args) > 1 or kwarg(n, 'default') is not None)]
+        wrong = [(k, d) for k, d in defaults if k in optional and d != 'None']
+        R.check(not wrong, rule, f'{q} | absent optional field reads as None', f'{len(optional)} optional fields, none given another default on read', f'from_dict reads {wrong} with a default other than None: a value that was stored as "absent" comes back as a value (ediv None -> 0), and rewriting the entry changes the file', p.loc(fd))
         for bf in bytes_fields:
             w = any(norm(n).endswith(f"self.{bf}.hex()") or f"'{bf}': self.{bf}.hex()" in norm(n) for n in ast.walk(td) if isinstance(n, (ast.Assign, ast.Dict)))
             r_ = 'bytes.fromhex' in norm(fd) and (f"bytes.fromhex(key_dict['{bf}'])" in norm(fd) or f'{bf} = bytes.fromhex({bf})' in norm(fd))
